@@ -17,7 +17,15 @@ COQ = os.path.join(VERIF, "coq")
 GEN = os.path.join(COQ, "gen")
 REPLAYS = os.path.join(VERIF, "replays")
 EVIDENCE = os.path.join(VERIF, "evidence")
-NPROC = int(os.environ.get("VERIF_JOBS", "16"))
+def _default_jobs():
+    try:
+        load = os.getloadavg()[0]
+    except OSError:
+        load = 0
+    return max(4, min(16, 20 - int(load)))          # busy machine: fewer parallel coqc processes
+
+
+NPROC = int(os.environ.get("VERIF_JOBS", "0")) or _default_jobs()
 
 COQC_TIMEOUT = 600
 
